@@ -774,9 +774,21 @@ def keepsFast (src : Array Spec.SrcToken) (c : Spec.Converted) : Option String :
     | some k => !(c.specials.any fun sp => sp.kind == k &&
         ((sp.id == t.id && (sp.bytes == t.bytes || k == .unknown)) ||
          (sp.bytes == t.bytes && (srcOrdById.getD t.id []).any (· != t.bytes))))
+  -- two specials of the result may share an id only if two special source tokens already did (F24)
+  let srcSpecialIds := src.toList.filterMap fun t => if t.special.isSome then some t.id else none
+  let srcShared (i : Id) : Bool := (srcSpecialIds.filter (· == i)).length > 1
+  let rec firstShared : List SpecialDef → Option SpecialDef
+    | [] => none
+    | sp :: rest =>
+      -- (the id u32::MAX marks a disabled special — SentencePiece ids of -1 — and is not an id in use)
+      if sp.id != INVALID && rest.any (fun o => o.id == sp.id && o.bytes != sp.bytes) && !srcShared sp.id then some sp
+      else firstShared rest
   match lost with
   | some t => some s!"source-token-not-kept {showTok t.id t.bytes}{if t.special.isSome then ",special" else ""}"
   | none =>
+    match firstShared c.specials with
+    | some sp => some s!"specials-share-an-id {showTok sp.id sp.bytes}"
+    | none =>
     let unusedIds : HashSet Id := src.foldl (fun m t => if t.unused then m.insert t.id else m) {}
     match c.vocab.find? fun e => !(srcMap.contains e || unusedIds.contains e.1) with
     | some e => some s!"entry-not-in-source {showTok e.1 e.2}"
